@@ -124,6 +124,17 @@ def arr(ctx, xs):
     return np.array(list(xs), dtype=object if ctx.mode == "sym" else float)
 
 
+def lemma(ctx, name, cond, **kw):
+    """an obligation whose formula is returned for later `using=` clauses.  Unlike ctx.lemma it is
+    NOT added to the path assumptions: a lemma that is false for the code under verification must
+    fail as an obligation, not make the path vacuous"""
+    if ctx.mode == "conc":
+        return ctx.ensure(name, cond)
+    f = symrun.fbool(cond)
+    ctx.ensure(name, f, **kw)
+    return f
+
+
 def is_nan_leaf(v):
     return isinstance(v, (float, np.floating)) and v != v
 
@@ -716,7 +727,7 @@ def _data(ctx, cls, par, n):
           functions=["normalizer/base.py:Normalizer.loglikelihood", "normalizer/base.py:Normalizer._loglikelihood",
                      "normalizer/base.py:Normalizer.kernel_loglikelihood",
                      "normalizer/base.py:Normalizer._kernel_loglikelihood"],
-          bounded="n<=3 data points")
+          bounded="n<=3 data points", timeout=90)
 def loglikelihood(ctx, cls, branch, n):
     norm, par = make(ctx, cls, branch, exact=True)
     xs = _data(ctx, cls, par, n)
@@ -726,6 +737,8 @@ def loglikelihood(ctx, cls, branch, n):
         ctx.ensure("loglikelihood=profile-normal-loglikelihood", ctx.eq(ll, spec_ll(ctx, cls, par, xs)))
         ctx.ensure("kernel_loglikelihood=loglikelihood-without-constant",
                    ctx.eq(kll, spec_kernel_ll(ctx, cls, par, xs)))
+        if n == 2:
+            ctx.ensure("likelihood=exp(loglikelihood)", ctx.eq(_quiet(norm.likelihood, arr(ctx, xs)), ctx.m.exp(ll)))
 
 
 class _FakeOpt:
@@ -1187,3 +1200,70 @@ def replay_native_probe(fail):
     if fail["method"] == "pipeline":
         return _probe_pipeline(fail["cls"], fail["par"])
     return _probe_once(fail["cls"], fail["par"], fail["method"], fail["data"])
+
+
+# ---------------------------------------------------------------------------------------
+# 7. kriging: conditioning values enter the system as normalize(value - trend) - mean, the
+#    estimated/simple mean leaves it as denormalize(mean)
+# ---------------------------------------------------------------------------------------
+def install_cdist_shim():
+    """krige.base binds scipy's cdist by name; positions are concrete in these contracts but reach
+    cdist as object arrays of numerals (np.eye(dtype=double) is an object array in symbolic runs)"""
+    import gstools.krige.base as kb
+    if getattr(kb.cdist, "_gsvc", False):
+        return
+    real = kb.cdist
+
+    def cdist(a, b, *args, **kw):
+        if any(isinstance(x, np.ndarray) and x.dtype == object for x in (a, b)):
+            a, b = (np.array(np.asarray(x).tolist(), dtype=float) for x in (a, b))    # numerals only, else TypeError
+        return real(a, b, *args, **kw)
+    cdist._gsvc = True
+    kb.cdist = cdist
+    symrun.SHIM_LOG.append("gstools.krige.base.cdist: object arrays of numerals -> float (contracts/c18.py)")
+
+
+install_cdist_shim()
+
+
+@contract(P, "krige.base.Krige._krige_cond/normalize(cond-trend)-mean",
+          params=[{"kind": k, "norm": nk, "cls": c} for k in ("const", "callable") for nk in ("none", "LogNormal", "generic")
+                  for c in ("Simple", "Ordinary")],
+          functions=["krige/base.py:Krige._krige_cond", "krige/base.py:Krige.cond_mean", "krige/base.py:Krige.cond_trend",
+                     "krige/base.py:Krige.get_mean", "krige/base.py:Krige.set_condition"],
+          bounded="2 conditioning points, dim 1")
+def krige_cond(ctx, kind, norm, cls):
+    m = ctx.m
+    narg, dn, nm, _ = pipeline_normalizer(ctx, norm)
+    mean, mean_at = mean_trend(ctx, "mean", kind, 1, "scalar")
+    trend, trend_at = mean_trend(ctx, "trend", kind, 1, "scalar")
+    pos = [0.25, 1.5]
+    vals = []
+    for i, p in enumerate(pos):
+        if norm == "LogNormal":      # normalize range (0, inf): value = trend + u, u > 0
+            u = ctx.real("u%d" % i, pos=True)
+            ctx.require(ctx.gt(u, 0))
+            vals.append(trend_at([p], 0) + u)
+        else:
+            vals.append(ctx.real("c%d" % i))
+    model = _quiet(gs.Exponential, dim=1, var=1.3, len_scale=0.8)
+    kw = dict(mean=mean) if cls == "Simple" else {}
+    import gstools.krige.base as kb
+    real_pinv = kb.P_INV
+    kb.P_INV = {k: (lambda mat: mat) for k in real_pinv}       # the kriging matrix is not used below (stub)
+    try:
+        krig = _quiet(getattr(gs.krige, cls), model, [pos], arr(ctx, vals), normalizer=narg, trend=trend, **kw)
+    finally:
+        kb.P_INV = real_pinv
+    got = _quiet(lambda: krig._krige_cond)
+    pad = 1 if cls == "Ordinary" else 0
+    ctx.ensure("length", ctx.shape_eq(got, (len(pos) + pad,)))
+    for i, p in enumerate(pos):
+        mu_i = mean_at([p], 0) if cls == "Simple" else 0
+        ctx.ensure("cond=normalize(value-trend)-mean", ctx.eq(got[i], nm(vals[i] - trend_at([p], 0)) - mu_i))
+    if pad:
+        ctx.ensure("unbiasedness-row-padded-with-0", ctx.eq(got[-1], 0))
+    if cls == "Simple" and kind == "const":
+        gm = _quiet(krig.get_mean)
+        ctx.ensure("get_mean=denormalize(mean)", ctx.eq(gm, dn(mean_at([0.0], 0))))
+        ctx.ensure("get_mean(post_process=False)=0", ctx.eq(_quiet(krig.get_mean, False), 0))
